@@ -66,6 +66,35 @@ type checker struct {
 	amount int64
 	spent  []reftx.TxOut
 	tr     *Trace
+	quirks uint32
+}
+
+// Quirks are known deviations of an implementation under test from the rules implemented here.
+// They never take part in deciding a verdict: a monitor that has found a disagreement may re-run
+// the case with exactly one quirk switched on in order to NAME the disagreement (if the quirked
+// reference agrees with the implementation, that deviation explains it).
+const (
+	// OP_CHECKLOCKTIMEVERIFY / OP_CHECKSEQUENCEVERIFY whose flag is off fail under
+	// DISCOURAGE_UPGRADABLE_NOPS (Core's behaviour before 0.16).
+	QuirkDiscourageUnflaggedLockOps uint32 = 1 << iota
+	// where BIP341 defines no digest (undefined hash_type, SIGHASH_SINGLE without matching output)
+	// the all-zero digest is used instead of failing.
+	QuirkTaprootZeroDigest
+	// FindAndDelete searches for CompactSize(len)||sig instead of the script push of sig.
+	QuirkFindAndDeleteCompactSize
+	// ECDSA signatures are parsed with fixed offsets: single-byte lengths, sequence length must
+	// equal lenR+lenS+4 (trailing bytes tolerated).
+	QuirkFixedOffsetDER
+	// LOW_S compares the S value as written with n/2; Core first maps a signature whose R or S
+	// is >= n (or longer than 32 bytes) to the all-zero signature, which counts as low.
+	QuirkLowSPlainComparison
+)
+
+func (c *checker) sigPattern(sig []byte) []byte {
+	if c.quirks&QuirkFindAndDeleteCompactSize != 0 {
+		return append(reftx.AppendCompactSize(nil, uint64(len(sig))), sig...)
+	}
+	return refsighash.PushData(sig)
 }
 
 // scriptnumError is thrown (panic) by script number decoding and by pops of an empty stack; EvalScript
@@ -259,7 +288,25 @@ func (c *checker) checkECDSASignature(sigIn, pub, scriptCode []byte, sv sigVersi
 	if c.tr != nil {
 		c.tr.ECDSA++
 	}
+	if c.quirks&QuirkFixedOffsetDER != 0 && !fixedOffsetDEROK(sigIn) {
+		return false
+	}
 	return VerifyECDSA(pub, sig, digest)
+}
+
+func fixedOffsetDEROK(sig []byte) bool {
+	if len(sig) < 5 || sig[0] != 0x30 {
+		return false
+	}
+	lenr := int(sig[3])
+	if lenr == 0 || 5+lenr >= len(sig) || sig[lenr+4] != 0x02 {
+		return false
+	}
+	lens := int(sig[lenr+5])
+	if lens == 0 || int(sig[1]) != lenr+lens+4 || lenr+lens+6 > len(sig) || sig[2] != 0x02 {
+		return false
+	}
+	return true
 }
 
 func (c *checker) checkSchnorrSignature(sig, pub []byte, sv sigVersion, ed *execData) ScriptError {
@@ -285,7 +332,10 @@ func (c *checker) checkSchnorrSignature(sig, pub []byte, sv sigVersion, ed *exec
 	}
 	digest, err := refsighash.Taproot(c.tx, c.spent, c.idx, hashType, annex, sp)
 	if err != nil {
-		return ErrSchnorrSigHashType
+		if c.quirks&QuirkTaprootZeroDigest == 0 {
+			return ErrSchnorrSigHashType
+		}
+		digest = [32]byte{}
 	}
 	if c.tr != nil {
 		c.tr.Schnorr++
@@ -348,12 +398,12 @@ func (c *checker) evalChecksigPreTapscript(sig, pub, script []byte, pbegincodeha
 	// Drop the signature in pre-segwit scripts but not segwit scripts
 	if sv == sigBase {
 		var found int
-		scriptCode, found = refsighash.FindAndDelete(scriptCode, refsighash.PushData(sig))
+		scriptCode, found = refsighash.FindAndDelete(scriptCode, c.sigPattern(sig))
 		if found > 0 && flags&FlagConstScriptCode != 0 {
 			return false, ErrSigFindAndDelete
 		}
 	}
-	if e := checkSignatureEncoding(sig, flags); e != ErrOK {
+	if e := checkSignatureEncoding(sig, flags, c.quirks); e != ErrOK {
 		return false, e
 	}
 	if e := checkPubKeyEncoding(pub, flags, sv); e != ErrOK {
@@ -531,6 +581,9 @@ func (c *checker) evalScript(stackp *stackT, script []byte, flags uint32, sv sig
 			case opcode == OP_CHECKLOCKTIMEVERIFY:
 				if flags&FlagCheckLockTimeVerify == 0 {
 					// not enabled; treat as a NOP2
+					if c.quirks&QuirkDiscourageUnflaggedLockOps != 0 && flags&FlagDiscourageUpgradableNops != 0 {
+						return ErrDiscourageUpgradableNops
+					}
 					break
 				}
 				if len(stack) < 1 {
@@ -552,6 +605,9 @@ func (c *checker) evalScript(stackp *stackT, script []byte, flags uint32, sv sig
 			case opcode == OP_CHECKSEQUENCEVERIFY:
 				if flags&FlagCheckSequenceVerify == 0 {
 					// not enabled; treat as a NOP3
+					if c.quirks&QuirkDiscourageUnflaggedLockOps != 0 && flags&FlagDiscourageUpgradableNops != 0 {
+						return ErrDiscourageUpgradableNops
+					}
 					break
 				}
 				if len(stack) < 1 {
@@ -1037,7 +1093,7 @@ func (c *checker) evalScript(stackp *stackT, script []byte, flags uint32, sv sig
 				for k := 0; k < nSigsCount; k++ {
 					if sv == sigBase {
 						var found int
-						scriptCode, found = refsighash.FindAndDelete(scriptCode, refsighash.PushData(stack.top(-isig-k)))
+						scriptCode, found = refsighash.FindAndDelete(scriptCode, c.sigPattern(stack.top(-isig-k)))
 						if found > 0 && flags&FlagConstScriptCode != 0 {
 							return ErrSigFindAndDelete
 						}
@@ -1049,7 +1105,7 @@ func (c *checker) evalScript(stackp *stackT, script []byte, flags uint32, sv sig
 					pub := stack.top(-ikey)
 					// Note how this makes the exact order of pubkey/signature evaluation distinguishable by
 					// CHECKMULTISIG NOT if the STRICTENC flag is set. See the script_(in)valid tests for details.
-					if e := checkSignatureEncoding(sig, flags); e != ErrOK {
+					if e := checkSignatureEncoding(sig, flags, c.quirks); e != ErrOK {
 						return e
 					}
 					if e := checkPubKeyEncoding(pub, flags, sv); e != ErrOK {
@@ -1350,6 +1406,14 @@ func VerifyTrace(scriptSig, scriptPubKey []byte, witness [][]byte, tx *reftx.Tx,
 		panic("refscript.Verify: inconsistent flag set (Core asserts)")
 	}
 	c := &checker{tx: tx, idx: idx, amount: amount, spent: spentOutputs, tr: tr}
+	e := c.verifyScript(scriptSig, scriptPubKey, witness, flags)
+	return e == ErrOK, e
+}
+
+// VerifyWithQuirks is Verify with the given quirks switched on (diagnostic naming only, see Quirk*).
+func VerifyWithQuirks(scriptSig, scriptPubKey []byte, witness [][]byte, tx *reftx.Tx, idx int, amount int64,
+	spentOutputs []reftx.TxOut, flags uint32, quirks uint32) (bool, ScriptError) {
+	c := &checker{tx: tx, idx: idx, amount: amount, spent: spentOutputs, quirks: quirks}
 	e := c.verifyScript(scriptSig, scriptPubKey, witness, flags)
 	return e == ErrOK, e
 }
